@@ -240,15 +240,20 @@ KNOWN_GROUPING = "C08-grouping-separator-not-lexed"
 ORDER = {"flip": False}
 
 
-def pair_case(kind, parts, c1, c2, expect=None, exotic=False):
+def pair_case(kind, parts, c1, c2, expect=None, exotic=False, prime=()):
     """exotic: group the integer parts by the thousands separator also when it is not '.' or ',' (the convention the
     configuration asks for; known finding C08-K1: the lexer splits such literals)"""
     ops = []
-    for (d, t) in (c1, c2):
+    for k, (d, t) in enumerate((c1, c2)):
         setters = [{"op": "set_dec", "v": d}, {"op": "set_thou", "v": t}]
         if ORDER["flip"]:
             setters.reverse()          # the configuration reached must not depend on the order of the two setters
-        ops += setters + [{"op": "exec", "lang": "en", "text": render(parts, d, t, exotic)}]
+        ops += setters
+        if k == 0:
+            # priming evaluations on the same calculator under the FIRST configuration: what a spelling meant in an
+            # earlier evaluation (or inside a conversion code) must not influence what it means later
+            ops += [{"op": "exec", "lang": "en", "text": t0} for t0 in prime]
+        ops += [{"op": "exec", "lang": "en", "text": render(parts, d, t, exotic)}]
     lits = [p for p in parts if isinstance(p, Lit)]
     meta = {"kind": kind, "sensitive": any(l.sensitive() for l in lits), "cfg": [list(c1), list(c2)],
             # syntactic record of what was written: which literals are grouped by which separator in each evaluation
@@ -307,18 +312,34 @@ def generate(rng, tier):
             ops += [{"op": "set_dec", "v": d}, {"op": "set_thou", "v": t}, {"op": "exec", "lang": "en", "text": text}]
         cases.append({"ops": ops, "meta": {"kind": "user-unit-code", "sensitive": True, "cfg": [list(c1), list(c2)],
                                            "grouped_by": [[], []], "expect": [bits(val)]}})
+    # the same spelling under two conventions on ONE calculator: "1.500" is 1500 under (',', '.') and 1,5 under ('.', ',')
+    mirror = [((",", "."), (".", ",")), ((".", ","), (",", "."))]
+    for i, (kind, parts, expect) in enumerate(PINNED):
+        c1, c2 = mirror[i % 2]
+        cases.append(pair_case(kind, parts, c1, c2, expect, prime=[render(parts, *c2)]))
+    for c1, c2 in mirror:
+        one24 = [Lit("1", "024"), " + ", Lit("1")]
+        cases.append(pair_case("arith", one24, c1, c2, [1.024 + 1], prime=[render([Lit("1024", "", True), " km to m"], *c1)]))
+        cases.append(pair_case("arith", [Lit("1024", "", True), " + ", Lit("1")], c1, c2, [1025.0],
+                               prime=[render([Lit("1", "024"), " km to m"], *c1)]))
     while len(cases) < n:
         kind, parts = shape(rng)
         c1, c2 = rng.choice(pairs)
         ORDER["flip"] = rng.random() < 0.5
-        cases.append(pair_case(kind, parts, c1, c2))
+        prime = ()
+        if rng.random() < 0.2 and (c1, c2) in mirror:
+            prime = [render(parts, *c2)]
+        elif rng.random() < 0.1:
+            c1, c2 = rng.choice(mirror)
+            prime = [render(parts, *c2)]
+        cases.append(pair_case(kind, parts, c1, c2, prime=prime))
     ORDER["flip"] = False
     return cases
 
 
 # ---------------------------------------------------------------- oracle
 def exec_idx(c):
-    return [i for i, o in enumerate(c["ops"]) if o["op"] == "exec"]
+    return [i for i, o in enumerate(c["ops"]) if o["op"] == "exec"][-2:]       # the pair; priming evaluations come before
 
 
 def exec_obs(rec, c=None):
